@@ -476,6 +476,88 @@ fn render_all(state: &TuiState, sizes: &[(u16, u16)]) -> Result<u64, String> {
     Ok(h)
 }
 
+/// Every overlay on states whose tools / tasks failed with LONG multi-byte error text (shifted so
+/// that, whatever byte offset a clip uses, one variant has no character boundary there), for known
+/// and never-announced ids: rendering must not panic and must be deterministic.
+fn overlay_sweep(report: &Report, sizes: &[(u16, u16)]) {
+    let texts: Vec<String> = vec![
+        "\u{20ac}".repeat(120),
+        format!("x{}", "\u{20ac}".repeat(120)),
+        format!("xx{}", "\u{20ac}".repeat(120)),
+        format!("x{}", "\u{e9}".repeat(200)),
+        format!("{}\n{}", "\u{1F642}".repeat(60), "\u{1F642}".repeat(60)),
+    ];
+    for (ti, text) in texts.iter().enumerate() {
+        let frame_sets: Vec<(&str, Vec<Event>)> = vec![
+            ("tool_known", vec![
+                ev(0, "s1", 1, EventKind::SessionStarted { input: "p".into() }),
+                ev(1, "s1", 2, EventKind::ToolStarted { tool_id: "t1".into(), name: "bash".into(), args: json!({"command": text}), timeout_ms: None }),
+                ev(2, "s1", 3, EventKind::ToolStderr { tool_id: "t1".into(), chunk: text.clone() }),
+                ev(3, "s1", 4, EventKind::ToolFailed { tool_id: "t1".into(), error: text.clone() }),
+            ]),
+            ("tool_unknown", vec![ev(0, "s1", 1, EventKind::ToolFailed { tool_id: "t2".into(), error: text.clone() })]),
+            ("task_known", vec![
+                ev(0, "k1", 1, EventKind::ToolTaskSpawned { task_id: "k1".into(), tool_name: "bash".into(), args: json!({"command": text}), cwd: None, title: Some(text.clone()), execution_mode: ToolTaskExecutionMode::Pipes, origin_session_id: None, artifacts: None }),
+                ev(1, "k1", 2, EventKind::ToolTaskStatus { task_id: "k1".into(), status: ToolTaskStatus::Failed, exit_code: None, started_at_ms: None, ended_at_ms: Some(2), artifacts: None, error: Some(text.clone()) }),
+            ]),
+            ("task_unknown", vec![ev(0, "k2", 1, EventKind::ToolTaskStatus { task_id: "k2".into(), status: ToolTaskStatus::Failed, exit_code: None, started_at_ms: None, ended_at_ms: Some(2), artifacts: None, error: Some(text.clone()) })]),
+            ("provider_errors", vec![
+                ev(0, "s1", 1, EventKind::SessionStarted { input: text.clone() }),
+                ev(1, "s1", 2, EventKind::ProviderEvent { provider: "openresponses".into(), status: ProviderEventStatus::Event, event_name: None, data: None, raw: None, errors: vec![text.clone()], response_errors: vec![text.clone()] }),
+                ev(2, "s1", 3, EventKind::SessionEnded { reason: text.clone() }),
+            ]),
+        ];
+        for (label, frames) in frame_sets {
+            let mut st = TuiState::new(64, 4096);
+            for f in &frames {
+                st.update(f.clone());
+            }
+            let mut overlays: Vec<Overlay> = vec![Overlay::None, Overlay::Activity, Overlay::TaskList, Overlay::StallDetail];
+            for id in ["t1", "t2", "t9"] {
+                overlays.push(Overlay::ToolDetail { tool_id: id.into() });
+            }
+            for id in ["k1", "k2", "k9"] {
+                overlays.push(Overlay::TaskDetail { task_id: id.into() });
+            }
+            for seq in 0..=(frames.len() as u64) {
+                overlays.push(Overlay::ErrorDetail { seq });
+            }
+            for ov in overlays {
+                for &(w, h) in sizes {
+                    let mut hashes = Vec::new();
+                    for _ in 0..2 {
+                        let mut s2 = st.clone();
+                        s2.overlay = ov.clone();
+                        let backend = TestBackend::new(w, h);
+                        let mut term = match Terminal::new(backend) {
+                            Ok(t) => t,
+                            Err(_) => continue,
+                        };
+                        let drawn = catch_unwind(AssertUnwindSafe(|| term.draw(|f| render(f, &s2, RenderMode::Decoded, "")).map(|_| ())));
+                        report.eval(Some(&("overlay", ti, label, format!("{ov:?}"), w, h)));
+                        report.count("overlay_renders", 1);
+                        match drawn {
+                            Ok(_) => hashes.push(hash64(&format!("{:?}", term.backend().buffer()))),
+                            Err(p) => {
+                                let msg = p.downcast_ref::<String>().cloned().or_else(|| p.downcast_ref::<&str>().map(|s| s.to_string())).unwrap_or_else(|| "?".into());
+                                report.violation(
+                                    "C20:render:overlay_panic",
+                                    json!({"engine": "H-inputs", "harness": "c20.overlays", "frames": label, "error_text_variant": ti, "overlay": format!("{ov:?}"), "size": [w, h]}),
+                                    &format!("rendering overlay {ov:?} over state [{label}] (error text variant {ti}: {} bytes of multi-byte text) at {w}x{h} panicked: {msg}", text.len()),
+                                );
+                                break;
+                            }
+                        }
+                    }
+                    if hashes.len() == 2 && hashes[0] != hashes[1] {
+                        report.violation("C20:render:overlay_nondeterministic", json!({"engine": "H-inputs", "harness": "c20.overlays", "frames": label, "error_text_variant": ti, "overlay": format!("{ov:?}"), "size": [w, h]}), "the same state rendered differently twice");
+                    }
+                }
+            }
+        }
+    }
+}
+
 struct Node {
     state: TuiState,
     path: Vec<u16>,
@@ -768,6 +850,7 @@ pub fn run(opts: Opts) -> i32 {
         let pair_alpha = alphabet(true, &[0]);
         crate::c20cli::run(&report, &to_json(&pair_alpha), &to_json(&full), &pair_alpha.names, &full.names, tier);
     }
+    overlay_sweep(&report, if tier == Tier::Quick { &sizes_quick } else { &sizes_thorough });
     for &mf in &caps_frames {
         for &mo in &caps_out {
             match tier {
